@@ -8,6 +8,7 @@
    int64 is modelled unbounded (Z); C12_no_overflow bounds the running sum by bootstrap + time span. *)
 From Coq Require Import List String ZArith QArith Bool Sorting.Sorted.
 From Piko Require Import Base.Maps FD.FD FDP.Window FDP.Phi FDP.Detector.
+From Piko Require Import Gossip.Types Gossip.Apply GossipP.ApplyP Compose.LiveFD.
 Import ListNotations.
 Open Scope list_scope.
 Open Scope nat_scope.
@@ -161,6 +162,17 @@ Theorem C12_never_heard : forall (d : fd) (id : string) (t : Z),
   /\ forall t', phi t' (run (d_boot d) (d_n d) [t]) = Some ((t' - t) * 1, d_boot d)%Z.
 Proof. exact level_unknown. Qed.
 
+(* the detector in its place (Compose/LiveFD.v: UpdateLiveness of the cluster state asking this detector): "a peer
+   that falls silent always eventually does" cross the threshold - every liveness evaluation made late enough finds it
+   unreachable (and by C11_silent_stays_unreachable it stays so until it is heard from) *)
+Theorem C12_silent_eventually_unreachable :
+  forall (s : lstate) (p : String.string) (st : node_state) (w : win) (l : Z),
+  wf_c (l_c s) -> lookup p (c_nodes (l_c s)) = Some st -> p <> c_local (l_c s) -> n_left st = false ->
+  lookup p (d_wins (l_fd s)) = Some w -> w_last w = Some l -> (0 < w_sum w)%Z -> 1 <= win_size w ->
+  exists T, forall t nows, (T <= t)%Z -> flag p (fst (ltick t nows s)) = Some true.
+Proof. exact silent_eventually_unreachable. Qed.
+
+
 Print Assumptions C12_window.
 Print Assumptions C12_reachable.
 Print Assumptions C12_no_overflow.
@@ -174,3 +186,4 @@ Print Assumptions C12_completeness_reachable.
 Print Assumptions C12_window_only.
 Print Assumptions C12_detector_tracks.
 Print Assumptions C12_never_heard.
+Print Assumptions C12_silent_eventually_unreachable.
